@@ -61,6 +61,11 @@ class GroupSum:
             return GroupSum(a.b, it.binop("+", a.val, b.val))
         return NotImplemented
 
+    def sym_unop(self, it, op):
+        if op == "neg":
+            return GroupSum(self.b, it.unop("neg", self.val))
+        raise EngineError(f"{op} of group sums")
+
 
 def _sum_by_group(it, b, *vals):
     return (GK(b),) + tuple(GroupSum(b, v) for v in vals)
@@ -134,7 +139,7 @@ def run(vc):
                 seen = [by_space[k.space] for k in kparts]
                 p.prove(f"S{tag}: no table contributes twice", len(seen) == len(set(seen)), meta=dict(meta, part="loads-structure"))
                 for et in TABLES:
-                    p.prove(f"S{tag}: every table with rows contributes [{et}]", z3.Or(tabs[et].space.n == 0, z3.BoolVal(et in seen)), meta=meta)
+                    p.prove(f"S{tag}: every table with rows contributes [{et}]", z3.Or(tabs[et].space.n <= 0, z3.BoolVal(et in seen)), meta=meta)
                 for k, v in zip(kparts, vparts):
                     et = by_space[k.space]
                     t = tabs[et]
